@@ -160,6 +160,21 @@ claim("C18",
       "C18_admit, C18_release; per-run obligations on the connection handler source (admission check, cleanup, limit = required "
       "players). Real sockets are not exercised (in-memory streams).", C_NOTE, C_TECH, "DESIGN.md section 7, C18")
 
+claim("C19",
+      "Rocq theorems over the initial-view model (Model/Load.v init_view): C19_view (every listed network, host and controlled host "
+      "of the start position is in the initial view; controlled hosts are known; no blocks at the start), C19_wildcards / "
+      "C19_all_local_all / C19_all_local ('random' = one of the recorded picks, 'all_local' = exactly the addresses of the private "
+      "networks), C19_own_nets; per-run obligations on utils.ConfigParser and the start-up code (Obl/C19_defaults.v): every scalar "
+      "setting is read from its documented key and falls back to the documented default (no step limit, zero rewards, one player, "
+      "switches off), and start_tasks reads each of them. The section readers (glue) are decided by correspondence: generated "
+      "configurations over all subsets of optional keys go through the real ConfigParser, start_tasks and joins; parsed start "
+      "position / win condition are compared with the listed items, the join reply with the configuration, the initial view with "
+      "the model inside Coq and with the statement (monitor). One known finding: the documented 'all_attackers' wildcard (D25).",
+      "Trusted: Coq kernel + VM; std++; translator harness/translate/confdefaults.py; yaml.safe_load; the section readers are tied by "
+      "differential execution against a reference reading of the configuration, not modelled in Coq; cyst stub; loop driver.",
+      "machine-checked proof in Rocq (Coq 8.16, std++) of the initial-view model + source translator with per-run obligations + configuration correspondence",
+      "DESIGN.md section 7, C19")
+
 
 def main():
     hooks = {
